@@ -30,7 +30,7 @@ def check(rep, ctx):
     R_S = rep.rule("C19-scratch", "every scratch buffer is allocated inside the call that uses it", floor=2)
     R_H = rep.rule("C19-no-swallow", "no handler catches Exception/BaseException/OSError without re-raising", floor=5)
     R_K = rep.rule("C19-cache", "the cached factories are exactly the functools.cache-decorated entity_reader/entity_writer", floor=2)
-    st = scan.module_state(ctx, SERIAL_MODULES)
+    st = scan.module_state(ctx, SERIAL_MODULES + ["kio.records.writers", "kio.records.readers", "kio.records.schema", "kio.index"])
     for s in st:
         if s["kind"] == "module-container-readonly":
             rep.note(f"{s['module']}: module-level container {s['name']} is never mutated anywhere in kio (a constant table)")
